@@ -2,6 +2,7 @@ import Lean.Data.Json
 import PteraModel.Driver.Tools
 import PteraModel.Driver.Selector
 import PteraModel.Driver.Handlers
+import PteraModel.Driver.Lifecycle
 open Lean
 
 def dispatch (j : Json) : Json :=
@@ -9,6 +10,7 @@ def dispatch (j : Json) : Json :=
   | "tools" => Ptera.Driver.Tools.handle j
   | "lex" | "ptree" | "parse" | "select0" | "hashvar" => Ptera.Driver.Selector.handle j
   | "handlers" => Ptera.Driver.Handlers.handle j
+  | "lifecycle" => Ptera.Driver.Lifecycle.handle j
   | "tagmatch" => Ptera.Driver.Handlers.handleTag j
   | "ping" => Json.mkObj [("ok", "pong")]
   | _ => Json.mkObj [("err", "bad-op")]
